@@ -50,6 +50,21 @@ def replace_witness(prop, failures, repo, verif, workdir, seed, log):
     return {"found": False, "inputs_tried": r["tried"], "search_s": round(time.time() - t0, 1)}
 
 
+def eqhash_witness(prop, failures, repo, verif, workdir, seed, log):
+    t0 = time.time()
+    try:
+        binary = twin.build(repo, verif, workdir, log)
+    except Exception as e:
+        return {"found": False, "error": str(e)[:600]}
+    r = twin.run(binary, ["search-eqhash", seed + 1, 200000])
+    if r["found"]:
+        log(f"  witness (search-eqhash, {r['tried']} pairs/histories tried): {r['detail']}")
+        return {"found": True, "kind": r["kind"], "input": r["input"], "detail": r["detail"], "inputs_tried": r["tried"], "search_s": round(time.time() - t0, 1),
+                "replays_on": "real crate built from the checked tree; pairs of boxed sources with observer histories"}
+    log(f"  witness search: no incoherent pair/history among {r['tried']}")
+    return {"found": False, "inputs_tried": r["tried"], "search_s": round(time.time() - t0, 1)}
+
+
 def mixed_witness(prop, failures, repo, verif, workdir, seed, log):
     if any("replace_" in f.name for f in failures):
         return replace_witness(prop, failures, repo, verif, workdir, seed, log)
@@ -63,7 +78,7 @@ def replay(prop, path, repo, verif, workdir, log):
     if not w.get("found"):
         return None
     binary = twin.build(repo, verif, workdir, log)
-    kind = {"enc": "replay-enc", "lines": "replay-lines", "dec": "replay-dec", "replace": "replay-replace"}[w["kind"]]
+    kind = {"enc": "replay-enc", "lines": "replay-lines", "dec": "replay-dec", "replace": "replay-replace", "eqhash": "replay-eqhash"}[w["kind"]]
     inp = w["input"]
     if w["kind"] == "dec":
         import ast
